@@ -6,3 +6,4 @@ import WowVerif.Props.C03
 import WowVerif.Props.C08
 import WowVerif.Props.C09
 import WowVerif.Props.C12
+import WowVerif.Props.C11
